@@ -152,6 +152,30 @@ def rowOk (r : RowFmt) : Bool :=
   (r.just.isEmpty || wordOk r.just) && r.cells.all cellOk && cellxOk 0 (r.cells.map fun c =>
     { defn := [], cellx := c.cellx, content := [] })
 
+/-! ### the control-word names a row takes from its inputs (everything else it emits is a fixed word) -/
+
+/-- one of the two control words of the `\u` discipline -/
+def uWord (w : List Char) : Bool := w == "u".toList || w == "uc".toList
+
+/-- an optional word: `[]` stands for "" (nothing is emitted) -/
+def optWord (w : List Char) : List (List Char) := if w.isEmpty then [] else [w]
+
+def textWords (t : TextFmt) : List (List Char) := optWord t.just ++ t.formats
+
+def borderWords : Option BorderFmt → List (List Char)
+  | some b => optWord b.style
+  | none => []
+
+def cellWords (c : CellFmt) : List (List Char) :=
+  textWords c.text ++ c.valign ++ borderWords c.left ++ borderWords c.top ++ borderWords c.right ++
+  borderWords c.bottom
+
+def rowWords (r : RowFmt) : List (List Char) := optWord r.just ++ r.cells.flatMap cellWords
+
+/-- none of the input words is `u` / `uc` (rtflite takes them from fixed code tables: `trqc`, `clvertalt`,
+`brdrs`, `b`, `qc` …) -/
+def rowNoU (r : RowFmt) : Bool := (rowWords r).all fun w => !uWord w
+
 end Model.Emit
 
 namespace Model.Emit
